@@ -1,5 +1,5 @@
 import StepModel.P21.Writer
-import StepModel.P21.ReaderLemmas4
+import StepModel.P21.ReaderLemmas5
 import StepModel.Generated.P21RWGen
 /-! # C01 — exchange files survive read-then-write: property theorems
 
@@ -194,6 +194,33 @@ theorem covered_ok {F} (env : Env F) (strict : Bool) (hcfg : env.lex.criSkipsCom
     exact ParamOK.binary env strict hcfg a hty hder hred hex hne hhex before after hbf ha
   | real a hty hder hred tok dec v htok hden hv hnn hbuf before after hbf ha =>
     exact ParamOK.real env strict hcfg a hty hder hred tok dec v htok hden hv hnn hbuf before after hbf ha
+
+/-- the same with the format flag tracked: a covered parameter is read without a message and leaves `skipws` as it was
+    or off (STRING) -/
+theorem covered_rd {F} (env : Env F) (strict : Bool) (hcfg : env.lex.criSkipsComments = true)
+    (hagg : env.cfg.aggrSkipsComments = true) (p : Param F) (hc : Covered env p) : ParamRd env strict p .null := by
+  obtain ⟨hred, hhead, hbef, _⟩ := covered_ok env strict hcfg hagg p hc
+  refine ⟨hred, hhead, hbef, ?_⟩
+  intro l sk d rest hd
+  cases hc with
+  | dollar a hopt hder hred before after hb ha =>
+    exact ⟨sk, Or.inl rfl, by simpa using attr_dollar env strict a hopt hder hcfg l sk after ha d rest hd⟩
+  | star a hder hred before after hb ha =>
+    exact ⟨sk, Or.inl rfl, by simpa using attr_star env strict a hder hcfg l sk after ha d rest hd⟩
+  | integer a hty hder hred tok htok hlo hhi before after hb ha =>
+    exact ⟨sk, Or.inl rfl, attr_integer env strict a hty hder hcfg tok htok hlo hhi l sk after ha d rest hd⟩
+  | ref a tg hty hder hred ds hne hds hhi hfound before after hb ha =>
+    exact ⟨sk, Or.inl rfl, by simpa using attr_ref env strict a tg hty hder hcfg ds hne hds hhi hfound l sk after ha d rest hd⟩
+  | aggrInt a hty hder hred es inner hok hin before after hb ha =>
+    exact ⟨sk, Or.inl rfl, attr_aggr_int env strict a hty hder hcfg hagg es inner hok hin l sk after ha d rest hd⟩
+  | string a hty hder hred b hsb before after hbf ha =>
+    exact ⟨false, Or.inr rfl, attr_string env strict a hty hder hcfg b hsb l sk after ha d rest hd⟩
+  | enum a ty hty het hder hred name i hne hname hfind hset before after hbf ha =>
+    exact ⟨sk, Or.inl rfl, attr_enum env strict a ty hty het hder hcfg name i hne hname hfind hset l sk after ha d rest hd⟩
+  | binary a hty hder hred hex hne hhex before after hbf ha =>
+    exact ⟨sk, Or.inl rfl, attr_binary env strict a hty hder hcfg hex hne hhex l sk after ha d rest hd⟩
+  | real a hty hder hred tok dec v htok hden hv hnn hbuf before after hbf ha =>
+    exact ⟨sk, Or.inl rfl, attr_real env strict a hty hder hcfg tok dec v htok hden hv hnn hbuf l sk after ha d rest hd⟩
 
 /-- **read (render p ℓ) = p for records over the covered kinds** (`_partial`: NUMBER attributes, aggregates of
     element types other than INTEGER, selects are *not* covered by this theorem — for them `ParamOK` is a
